@@ -72,11 +72,11 @@ theorem C11_idempotent (m : Machine) (o : Opts) (fuel : Nat) (c : Cfg) (h : Quie
 /-- **C11 (fresh model, what is queued).** Over a model with no state, construction queues exactly
 one `__initial__` trigger, under a fresh id. -/
 theorem C11_start_fresh (c : Cfg) (hcur : c.cur = none) :
-    (start c).1 = { c with queue := c.queue ++ [{ tid := c.nextTid, event := initialEv }],
+    (start c).1 = { c with queue := c.queue ++ [{ tid := c.nextTid, event := initialEv, internal := true }],
                            nextTid := c.nextTid + 1 } := by
   unfold start
   rw [bind_ok (x := EM.get) (c := c) (a := c) rfl]
-  simp [EM.get, hcur, enqueue, EM.modify]
+  simp [EM.get, hcur, enqueueActivation, EM.modify]
 
 /-- the async engine only queues it: activation is deferred to the first entry into the loop -/
 theorem C11_async_defers (m : Machine) (fuel : Nat) (c : Cfg) :
@@ -93,7 +93,7 @@ first `send e` finds the `__initial__` trigger ahead of `e` in the queue (and th
 C03), whatever `e` is. -/
 theorem C11_async_initial_first (c : Cfg) (e : EventId) (hcur : c.cur = none) (hq : c.queue = []) :
     (enqueue e (start c).1).1.queue =
-      [{ tid := c.nextTid, event := initialEv }, { tid := c.nextTid + 1, event := e }] := by
+      [{ tid := c.nextTid, event := initialEv, internal := true }, { tid := c.nextTid + 1, event := e }] := by
   rw [C11_start_fresh c hcur]
   simp [enqueue, EM.modify, hq]
 
@@ -129,7 +129,7 @@ theorem C11_state_stays (m : Machine) (t : Trigger) : Resp SomeStays (trigger ne
 /-- **C11 (activating again is a no-op, also by name).** On a machine that holds a state the
 reserved event `__initial__` is an ordinary undeclared event: it does not re-run the activation. -/
 theorem C11_initial_name_inert (h : Nested) (m : Machine) (t : Trigger) (c : Cfg) (s : StateId)
-    (hs : c.cur.bind (lookupState m) = some s) (hno : ∀ tr ∈ out m s, tr.events.contains t.event = false) :
+    (hi : t.internal = false) (hs : c.cur.bind (lookupState m) = some s) (hno : ∀ tr ∈ out m s, tr.events.contains t.event = false) :
     (trigger h m t c).1 = c := by
   have hsome : c.cur.isNone = false := by
     cases hc : c.cur with
@@ -137,7 +137,7 @@ theorem C11_initial_name_inert (h : Nested) (m : Machine) (t : Trigger) (c : Cfg
     | some v => rfl
   unfold trigger
   rw [bind_ok (x := EM.get) (c := c) (a := c) rfl]
-  simp only [EM.get, hsome, Bool.and_false, Bool.false_eq_true, if_false, hs]
+  simp only [EM.get, hsome, hi, Bool.and_false, Bool.false_eq_true, if_false, hs]
   have hcands : ∀ (trs : List Transn), (∀ tr ∈ trs, tr.events.contains t.event = false) →
       tryCands h m t trs c = (c, .ok none) := by
     intro trs htrs
@@ -150,6 +150,16 @@ theorem C11_initial_name_inert (h : Nested) (m : Machine) (t : Trigger) (c : Cfg
   rw [hcands _ hno]
   simp only
   split <;> rfl
+
+/-- **C11 (a state stored before a deferred activation is resumed).** The activation trigger an async machine
+queued for itself at construction, processed when the model holds a state by then (the record was loaded in the
+meantime; any value): nothing runs, nothing is written, no error — the events behind it are handled from the stored
+state (D36 repaired; before, it was treated as an undeclared event and failed the caller's first event). -/
+theorem C11_stale_activation (h : Nested) (m : Machine) (tid : Nat) (c : Cfg) (hc : c.cur.isNone = false) :
+    trigger h m { tid := tid, event := initialEv, internal := true } c = (c, .ok none) := by
+  unfold trigger
+  rw [bind_ok (x := EM.get) (c := c) (a := c) rfl]
+  simp [EM.get, hc]
 
 /-- the initial activation stores the start state's value before any enter callback runs -/
 theorem C11_initial_stores (m : Machine) (t : Trigger) (s : StateId) (hs : initialTarget m = .ok s) (c : Cfg) :
